@@ -1,7 +1,8 @@
 SPECIFICATION Spec
 CONSTANTS HourDoesNotZeroMinutes <- Off
+          DayMoveKeepsHour <- Off
           Week53Everywhere <- Off
-          AllowKnownClass <- Off
+          AllowKnownClass <- On
           Shapes = 0
 INVARIANT Refines
 INVARIANT Variant
